@@ -514,6 +514,8 @@ func (fr *Frame) get(v ssa.Value) Val {
 
 var globalCells = map[*ssa.Global]*Cell{}
 
+var errGlobals map[string]int64
+
 func (ex *Exec) globalPtr(g *ssa.Global) Val {
 	// globals are modelled as immutable symbolic values (read-only)
 	elem := g.Type().(*types.Pointer).Elem()
@@ -521,6 +523,20 @@ func (ex *Exec) globalPtr(g *ssa.Global) Val {
 	defer func() { recover() }()
 	if c := ex.P.specifierConst(g); c != nil {
 		return ValPtr{Root: c, Elem: elem}
+	}
+	if isErrorType(elem) {
+		// package-level error variables (io.EOF, io.ErrUnexpectedEOF, ErrOverflow, ...): non-nil
+		// sentinel values, assumed never reassigned
+		if errGlobals == nil {
+			errGlobals = map[string]int64{}
+		}
+		id, ok := errGlobals[name]
+		if !ok {
+			id = int64(500000 + len(errGlobals))
+			errGlobals[name] = id
+		}
+		ex.Trusted["package-level error variables are non-nil sentinels that are never reassigned"] = true
+		return ValPtr{Root: IntC(id), Elem: elem}
 	}
 	return ValPtr{Root: Sym(name, SortOf(elem)), Elem: elem}
 }
